@@ -2,12 +2,22 @@
 
 use crate::engine::PartDef;
 
+pub mod c12;
+pub mod c13;
 pub mod c14;
+pub mod c15;
+pub mod c16;
+pub mod c17;
 
 pub type PropDef = (&'static str, &'static str, Vec<PartDef>, &'static str, Vec<&'static str>);
 
 pub fn lookup(id: &str) -> Option<PropDef> {
     match id {
+        "C12" => Some(("C12", c12::TITLE, c12::parts(), c12::RULE, c12::assumptions())),
+        "C13" => Some(("C13", c13::TITLE, c13::parts(), c13::RULE, c13::assumptions())),
+        "C15" => Some(("C15", c15::TITLE, c15::parts(), c15::RULE, c15::assumptions())),
+        "C16" => Some(("C16", c16::TITLE, c16::parts(), c16::RULE, c16::assumptions())),
+        "C17" => Some(("C17", c17::TITLE, c17::parts(), c17::RULE, c17::assumptions())),
         "C14" => Some(("C14", c14::TITLE, c14::parts(), c14::RULE, c14::assumptions())),
         _ => None,
     }
